@@ -618,6 +618,7 @@ class HandHistory(Iterable[State]):
         kwargs.setdefault('variant', variant)
         kwargs.setdefault('actions', actions)
         kwargs.setdefault('starting_stacks', list(state.starting_stacks))
+        kwargs.setdefault('ante_trimming_status', state.ante_trimming_status)
 
         field_names = {field.name for field in fields(cls)}
 
